@@ -344,7 +344,7 @@ func TestC24(t *testing.T) {
 			c.Map = storgen.GenMapHistory(src, storgen.MapGenConfig{MaxExecs: 12, MaxOps: 5, Injections: true, AvoidNilBorrowAnyResource: true})
 		default:
 			c.Family = "cont"
-			c.Cont = storgen.GenContHistory(src, storgen.ContGenConfig{MaxExecs: 8, MaxOps: 6, Injections: true})
+			c.Cont = storgen.GenContHistory(src, storgen.ContGenConfig{MaxExecs: 8, MaxOps: 6, Injections: true, SkipBuild: true})
 		}
 		if msg := runC24Case(rec, c); msg != "" {
 			rt.Fatalf("C24 violation: %s\n--- replay case:\n%s", msg, toJSON(c))
